@@ -522,6 +522,11 @@ class Evaluator:
                 return max(0, int(recv) - int(o_))
         if isinstance(recv, StructVal) and not e["args"] and m in recv:
             return recv[m]  # trivial getter
+        if "*" in self.hooks:
+            # last resort of a model: e.g. follow a call into another method of the same extracted type
+            r_ = self.hooks["*"](self, recv, [self.eval(a, env) for a in e["args"]], e, env)
+            if r_ is not NotImplemented:
+                return r_
         raise Unknown("method %s on %s (line %s)" % (m, type(recv).__name__, e.get("l")))
 
     def e_structlit(self, e, env):
